@@ -18,16 +18,16 @@ open Gsu.LangRegex
 
 /-- Concatenation: `ab` matches where `a` matches and `b` matches the rest (continuation form),
 and concatenation is associative. -/
-theorem match_concat (s : Bytes) (a b d : Re) (i : Nat) (c : Caps) (k : K) :
-    m s (.seq a b) i c k = m s a i c (fun j c' => m s b j c' k) ∧
-    m s (.seq (.seq a b) d) i c k = m s (.seq a (.seq b d)) i c k :=
+theorem match_concat (ic : Bool) (s : Bytes) (a b d : Re) (i : Nat) (c : Caps) (k : K) :
+    m ic s (.seq a b) i c k = m ic s a i c (fun j c' => m ic s b j c' k) ∧
+    m ic s (.seq (.seq a b) d) i c k = m ic s (.seq a (.seq b d)) i c k :=
   ⟨rfl, rfl⟩
 
 /-- Alternation is left-biased: if the left branch leads to an overall match that match is the
 result; only otherwise is the right branch tried. -/
-theorem alt_left_biased (s : Bytes) (a b : Re) (i : Nat) (c : Caps) (k : K) :
-    (∀ r, m s a i c k = some r → m s (.alt a b) i c k = some r) ∧
-    (m s a i c k = none → m s (.alt a b) i c k = m s b i c k) :=
+theorem alt_left_biased (ic : Bool) (s : Bytes) (a b : Re) (i : Nat) (c : Caps) (k : K) :
+    (∀ r, m ic s a i c k = some r → m ic s (.alt a b) i c k = some r) ∧
+    (m ic s a i c k = none → m ic s (.alt a b) i c k = m ic s b i c k) :=
   ⟨fun r h => orElse_some _ _ r h, fun h => orElse_none _ _ h⟩
 
 /-- Star unfolding: a greedy `r*` first tries one more (non-empty) iteration followed by `r*`
@@ -43,34 +43,63 @@ theorem star_unfold (body : Nat → Caps → K → Res) (fuel i : Nat) (c : Caps
   ⟨rfl, rfl⟩
 
 /-- `r+` is `r` followed by `r*`; `r?` is `r` or nothing, in the order greediness dictates. -/
-theorem plus_opt_unfold (s : Bytes) (r : Re) (g : Bool) (i : Nat) (c : Caps) (k : K) :
-    m s (.plus r g) i c k =
-      m s r i c (fun j c' => starLoop (fun i c k' => m s r i c k') g (s.length - j + 1) j c' k) ∧
-    m s (.opt r true) i c k = orElse (m s r i c k) (fun _ => k i c) ∧
-    m s (.opt r false) i c k = orElse (k i c) (fun _ => m s r i c k) :=
+theorem plus_opt_unfold (ic : Bool) (s : Bytes) (r : Re) (g : Bool) (i : Nat) (c : Caps) (k : K) :
+    m ic s (.plus r g) i c k =
+      m ic s r i c (fun j c' => starLoop (fun i c k' => m ic s r i c k') g (s.length - j + 1) j c' k) ∧
+    m ic s (.opt r true) i c k = orElse (m ic s r i c k) (fun _ => k i c) ∧
+    m ic s (.opt r false) i c k = orElse (k i c) (fun _ => m ic s r i c k) :=
   ⟨rfl, rfl, rfl⟩
 
 /-- A group records the span of its latest participation. -/
-theorem group_records_span (s : Bytes) (n : Nat) (r : Re) (i : Nat) (c : Caps) (k : K) :
-    m s (.group n r) i c k = m s r i c (fun j c' => k j ((n, i, j) :: c')) := rfl
+theorem group_records_span (ic : Bool) (s : Bytes) (n : Nat) (r : Re) (i : Nat) (c : Caps) (k : K) :
+    m ic s (.group n r) i c k = m ic s r i c (fun j c' => k j ((n, i, j) :: c')) := rfl
 
 /-- Leftmost: the reported match starts at the first position at which the pattern matches at
 all, and the reported end/captures are those of the matcher at that position. -/
-theorem search_leftmost (s : Bytes) (re : Re) (a b : Nat) (c : Caps)
-    (h : search s re = some (a, b, c)) :
-    m s re a [] ret = some (b, c) ∧ ∀ i, i < a → m s re i [] ret = none := by
-  have := searchFrom_leftmost s re (s.length + 1) 0 a b c h
+theorem search_leftmost (ic : Bool) (s : Bytes) (re : Re) (a b : Nat) (c : Caps)
+    (h : search ic s re = some (a, b, c)) :
+    m ic s re a [] ret = some (b, c) ∧ ∀ i, i < a → m ic s re i [] ret = none := by
+  have := searchFrom_leftmost ic s re (s.length + 1) 0 a b c h
   exact ⟨this.2.1, fun i hi => this.2.2 i (Nat.zero_le _) hi⟩
+
+/-- `FirstMatch(s, pos)` reports the first position at or after `pos` at which the pattern
+matches (anchors are evaluated against the whole subject, not against the suffix). -/
+theorem first_match_from_pos (ic : Bool) (s : Bytes) (re : Re) (pos a b : Nat) (c : Caps)
+    (h : searchAt ic s re pos = some (a, b, c)) :
+    pos ≤ a ∧ m ic s re a [] ret = some (b, c) ∧ ∀ i, pos ≤ i → i < a → m ic s re i [] ret = none :=
+  searchFrom_leftmost ic s re _ pos a b c h
+
+/-- `LastMatch(s, pos)` reports the largest start position not after `pos` at which it matches. -/
+theorem last_match_upto_pos (ic : Bool) (s : Bytes) (re : Re) (pos a b : Nat) (c : Caps)
+    (h : lastFrom ic s re pos = some (a, b, c)) :
+    a ≤ pos ∧ m ic s re a [] ret = some (b, c) ∧ ∀ j, a < j → j ≤ pos → m ic s re j [] ret = none :=
+  lastFrom_last ic s re pos a b c h
+
+/-- A start-of-subject anchor only ever matches at offset 0, an end anchor only at the end —
+wherever the search was started. -/
+theorem anchors_absolute (ic : Bool) (s : Bytes) (i : Nat) (c : Caps) (k : K) :
+    (i ≠ 0 → m ic s .bos i c k = none) ∧ (i < s.length → m ic s .eos i c k = none) := by
+  constructor
+  · intro h; simp [m, h]
+  · intro h; simp only [m]; split
+    · omega
+    · rfl
 
 /-- Termination: the matcher is a total function (structural recursion on the pattern, loop fuel
 bounded by the remaining subject), so `search` yields an answer for every pattern and subject. -/
-theorem search_total (s : Bytes) (re : Re) : search s re = none ∨ ∃ r, search s re = some r := by
-  cases search s re with
+theorem search_total (ic : Bool) (s : Bytes) (re : Re) : search ic s re = none ∨ ∃ r, search ic s re = some r := by
+  cases search ic s re with
   | none => exact Or.inl rfl
   | some r => exact Or.inr ⟨r, rfl⟩
 
+-- non-vacuity: \Aab does not match again at offset 2 of "abab"; (?i)[x-z] matches Z
+example : searchAt false [97, 98, 97, 98] (.seq .bos (.seq (.chr 97) (.chr 98))) 2 = none ∧
+    all false [97, 98, 97, 98] (.seq .bos (.seq (.chr 97) (.chr 98))) = [(0, 2)] ∧
+    search true [90] (.cls false [(120, 122)]) = some (0, 1, []) ∧
+    search false [90] (.cls false [(120, 122)]) = none := by decide
+
 -- non-vacuity: (a|ab)(c|bcd)* on "xabcd": leftmost at 1, left-biased alternative `a`, group 2 unset
-example : search [120, 97, 98, 99, 100]
+example : search false [120, 97, 98, 99, 100]
     (.seq (.group 1 (.alt (.chr 97) (.seq (.chr 97) (.chr 98))))
       (.star (.group 2 (.alt (.chr 99) (.seq (.chr 98) (.seq (.chr 99) (.chr 100))))) true)) =
     some (1, 5, [(2, 2, 5), (1, 1, 2)]) := by decide
